@@ -70,7 +70,13 @@ func checkC05(e *Env) {
 		)
 		// every recorded location passed the in-responses check
 		e.dominatedByGates("GATE", fn, noCfg, "builtin:append", []string{"*", "alloc:[1]bundle.requestEntryWithOffset"},
-			gate.CallOK("I.in-responses", "bundle.parseIndexSection*$1", "call:(*cbor.Decoder).DecodeUint(*)#0", "call:(*cbor.Decoder).DecodeUint(*)#0"))
+			// through the range-checking closure, or with the two comparisons written inline
+			either("I.in-responses.offset", "offset lies inside the responses section",
+				gate.CallOK("", "bundle.parseIndexSection*$1", "call:(*cbor.Decoder).DecodeUint(*)#0", "call:(*cbor.Decoder).DecodeUint(*)#0"),
+				gate.Cmp("", "call:(*cbor.Decoder).DecodeUint(*)#0", token.LEQ, `call:bundle.FindSection(param:sos,const:"responses")#0.Length`)),
+			either("I.in-responses.length", "length fits behind the offset inside the responses section",
+				gate.CallOK("", "bundle.parseIndexSection*$1", "call:(*cbor.Decoder).DecodeUint(*)#0", "call:(*cbor.Decoder).DecodeUint(*)#0"),
+				gate.Cmp("", "call:(*cbor.Decoder).DecodeUint(*)#0", token.LEQ, `(call:bundle.FindSection(param:sos,const:"responses")#0.Length - call:(*cbor.Decoder).DecodeUint(*)#0)`)))
 		e.requireGates("GATE", fn, ok1, noCfg,
 			gate.Cmp("I.responses-found", `call:bundle.FindSection(param:sos,const:"responses")#2`, token.EQL, "const:true").WithEdge(func(f gate.Fact) bool {
 				return f.Kind == gate.FBool && f.Val && prov.Of(f.V) == `call:bundle.FindSection(param:sos,const:"responses")#2`
@@ -87,7 +93,7 @@ func checkC05(e *Env) {
 		gate.CallBool("R.status-3-digits", "(*regexp.Regexp).MatchString", true, "global:bundle.reStatus", `call:bundle.decodeCborHeaders(*)#1[const:":status"]`),
 		gate.Cmp("R.no-trailing", "call:(*bytes.Buffer).Len(call:bytes.NewBuffer(slice(param:bs,*)))", token.EQL, "const:0"),
 	)
-	e.requireStore("RESULT", lr, "local:res.Body", "call:(*cbor.Decoder).DecodeByteString(call:cbor.NewDecoder(call:bytes.NewBuffer(slice(param:bs,param:req.Offset,(param:req.Offset + param:req.Length)))))#0",
+	e.requireStore("RESULT", lr, "{local:res|alloc:bundle.Response}.Body", "call:(*cbor.Decoder).DecodeByteString(call:cbor.NewDecoder(call:bytes.NewBuffer(slice(param:bs,param:req.Offset,(param:req.Offset + param:req.Length)))))#0",
 		"the byte string decoded from the in-bounds slice of the file buffer")
 	rd := e.fn("bundle.Read")
 	e.requireGates("GATE", rd, ok1, noCfg,
